@@ -132,6 +132,19 @@ CHECKS["C08"] = {
     "note": "Strict mode only. The 'unlimited' baseline uses context_depth_limit 40 (not infinity) so that runaway recursion stays inside the Python stack; block nesting is checked at parse time.",
 }
 
+CHECKS["C16"] = {
+    "technique": "differential testing across undefined types + exception-type predicates on targeted missing-variable uses",
+    "text": "54 targeted uses of a missing variable (output, iteration, comparison, 39 filters, filter arguments) x 5 kinds of missing path must raise UndefinedError under StrictUndefined and never under the default type; random templates rendered with data from which ~30% of keys/sub-paths were deleted must, whenever a strict type renders successfully, produce exactly the default type's output.",
+    "design_ref": "DESIGN.md §4 C16",
+    "note": "The default type may still raise other Liquid errors (type errors by C12).",
+}
+CHECKS["C17"] = {
+    "technique": "invariant testing (data/template snapshots) + history-based differential testing against isolated evaluation in a pristine forked process",
+    "text": "(a) after rendering random filter-heavy templates the data must equal a type- and order-aware snapshot taken before, the template's str() and structural fingerprint must be unchanged and a second render must agree. (b) histories of renders in shared environments, built from templates that reach memoised or stateful code and from equal-but-distinct values (1/1.0/True, str/Markup, equal instants in different zones, date/datetime), are compared step by step with the same render evaluated alone: in a fresh environment with known caches cleared, and in a process forked from a zygote that has imported liquid but never rendered.",
+    "design_ref": "DESIGN.md §4 C17",
+    "note": "Current-time constructs and source edits are excluded as the property allows. Process isolation is run by one shard only (fork throughput).",
+}
+
 NOT_APPLICABLE = [
     {"property_id": p, "reason": "check not built yet in this round (work in progress; see DESIGN.md §4 for the planned oracle)"}
     for p in ALL
